@@ -363,7 +363,12 @@ fn zst_table<ZT: Elem>(c: &mut Ctx, rng: &mut Rng) {
 pub fn run(c: &mut Ctx) {
     c.run_scenarios(|c, idx, rng| {
         let recipe = RECIPES[((crate::util::mix(idx) / 10) % RECIPES.len() as u64) as usize];
+        // one scenario in 40 on a very large sparse table (2^18..2^26 buckets)
+        let recipe = if crate::util::mix(idx ^ 0xa7) % 40 == 0 { crate::states::Recipe::HugeSparse } else { recipe };
         let spec = Spec::random(rng, recipe);
+        if spec.recipe == crate::states::Recipe::HugeSparse {
+            c.bump("huge_sparse_states");
+        }
         let mut d = Json::obj();
         d.set("state", Json::s(spec.describe()));
         d.set("case", Json::i(crate::util::mix(idx) % 10));
@@ -371,9 +376,11 @@ pub fn run(c: &mut Ctx) {
         match crate::util::mix(idx) % 10 {
             0 => case::<MapC<T24, T24>>(c, &spec, rng, "map:T24xT24"),
             1 => case::<MapC<P8, P8>>(c, &spec, rng, "map:P8xP8"),
+            2 if rng.chance(1, 3) => case::<MapC<P8, crate::elem::L600>>(c, &spec, rng, "map:P8xL600"),
             2 => case::<MapC<B1, T24>>(c, &spec, rng, "map:B1xT24"),
             3 => case::<SetC<T24>>(c, &spec, rng, "set:T24"),
             4 => case::<SetC<B1>>(c, &spec, rng, "set:B1"),
+            5 if rng.chance(1, 4) => case::<TableC<crate::elem::L4K>>(c, &spec, rng, "table:L4K"),
             5 => case::<TableC<T24>>(c, &spec, rng, "table:T24"),
             6 => case::<TableC<P8>>(c, &spec, rng, "table:P8"),
             7 => case::<SetC<Z>>(c, &spec, rng, "set:Z"),
